@@ -85,12 +85,13 @@ PROPS = {
     },
     "C07": {
         "thm": "SameVerif.Thm.C07",
-        "suites": ["framer", "framerseq"],
+        "suites": ["framer", "framerseq", "sigphase"],
+        "spec_filter": r"^spec\.(c07\.stream|sig c07) ",
         "technique": "Lean 4 theorems about the framer automaton (refinement of a declarative, index-based framing specification; bytes in order; one burst per start; give-up; length cap) + hash-exhaustive correspondence over a reduced alphabet with restarts/ends at every position + declarative oracle on long streams",
         "level_text": "The framer model (Framer::input/end/state, message_prefix_errors) is proved in Lean, for all byte streams and budgets, to report bursts that are the matched window as received followed by the received bytes in order, ending as specified; "
                       "it is tied to the real Framer through the hook exhaustively over all sequences of a 10-symbol alphabet (preamble, Z, C, N, '-', 'A', NUL, 0xFF, 1-bit-off Z and C) of depth 4 (quick) / 5 (thorough) after 9 structured starts, with a restart or end() inserted at every position, for 10 (quick) / all 72 (thorough) budget pairs, by hash incl. the final state snapshot; "
                       "long random streams (up to 300 data bytes, over the cap) are replayed on model and code and judged by the declarative framing specification; random stateful op sequences compare the private state after every call.",
-        "level_note": "Bit-phase to byte alignment at the signal level is C01's link model + signal suite, not this check. Budgets above 7 for the prefix are outside the builder's clamp and not enumerated.",
+        "level_note": "Bit-phase to byte alignment: proved for the link model in C01.burst_delivered (any acquisition point in the first 90 preamble bits); at signal level suite sigphase sends single bursts at all 16 half-symbol phases behind lead-in bits at another phase (random bits, preamble-like bytes followed by a 1..7-bit slip, alternating bits, extra preamble bytes) and demands exactly one burst that starts with the transmitted bytes in order, and replays the taps on the link model. Budgets above 7 for the prefix are outside the builder's clamp and not enumerated.",
         "rule": "hash requests: (budget pair) x (structured start) x quarter of the tail space; each stands for 10^depth/4 tails x (2*depth+1) restart/end variants. fr.stream: preamble length 0..24, prefix with 0..4 bit errors or absent, data 0..300 bytes with 0..40% invalid, garbage tail. framerseq: random calls with restarts (p=1/25) and end() (p=1/40), state snapshot compared after every call. Non-trivial: hash ranges, streams, and every stateful call; distinct by request text.",
         "exhaustive": False,
         "exhaustive_note": "exhaustive within the stated reduced alphabet/depth/budget grid (counters.exhaustive:op_sequences); the property's depth-12 space is not reached",
